@@ -117,23 +117,32 @@ func (jt *JSONTable) RenderTo(w io.Writer) error {
 		return err
 	}
 	needComma := false
+	pendingBlanks := 0
 	for _, r := range jt.AllRows() {
+		if r.IsSeparator() {
+			// shown as a blank line, but only once we know which side of a comma it belongs
+			pendingBlanks++
+			continue
+		}
 		if needComma {
 			if _, err = io.WriteString(w, ",\n"); err != nil {
 				return err
 			}
-			needComma = false
 		}
-		if r.IsSeparator() {
+		for ; pendingBlanks > 0; pendingBlanks-- {
 			if _, err = io.WriteString(w, "\n"); err != nil {
 				return err
 			}
-			continue
 		}
 		if err = jt.emitRowAsJSONObject(w, skipableColumns, keys, r.Cells()); err != nil {
 			return err
 		}
 		needComma = true
+	}
+	for ; pendingBlanks > 0; pendingBlanks-- {
+		if _, err = io.WriteString(w, "\n"); err != nil {
+			return err
+		}
 	}
 	// We assume need newline prefix because no comma+newline from new row,
 	// but if the table is empty, this will result in "[\n\n]\n" which is
